@@ -38,7 +38,7 @@ def maybe_distributed_mean(t):
     if not is_distributed():
         return t
 
-    dist_nn.all_reduce(t)
+    t = dist_nn.all_reduce(t)
     t = t / dist.get_world_size()
     return t
 
